@@ -231,6 +231,9 @@ def parse_numbers(numbers, is_date=False):
                         date = get_date(date, step)
                     except ValueError:
                         verif.util.error("Could not parse '%s': %d is not a valid date." % (numbers, date))
+                    except OverflowError:
+                        # datetime only knows the years 1 to 9999
+                        verif.util.error("Could not parse '%s': Dates must be in the years 1 to 9999." % (numbers))
                 values = values + list(curr)
             else:
                 # Note: Values are rounded, to avoid problems with floating point
